@@ -107,6 +107,7 @@ type ContractSet struct {
 	GhostOrder []*GhostVar
 	LockInvs   map[string]*LockInv // key: pkgpath.Type + "." + field
 	Lemmas     []*Lemma
+	Lua        []*LuaContract
 	Dropped    []string // call prefixes treated as no-ops
 	Pure       []string
 	Errors     []string
@@ -133,7 +134,7 @@ var clauseKeywords = map[string]bool{
 	"ghost": true, "property": true, "float": true, "overflow": true, "trusted": true, "pure": true, "nopanic": true,
 	"may_panic": true, "func": true, "spec": true, "lockinv": true, "guarded_by": true, "extern": true, "lemma": true,
 	"let": true, "captures": true, "hyp": true, "goal": true, "drop": true, "purepkg": true, "flag": true, "results": true,
-	"inline": true, "allocates": true, "havoc_heap": true, "package": true, "specfn": true,
+	"inline": true, "allocates": true, "havoc_heap": true, "package": true, "specfn": true, "lua": true, "keys": true, "args": true, "intargs": true,
 }
 
 func stripComment(s string) string {
@@ -360,6 +361,7 @@ func (cs *ContractSet) ParseFile(path, pkgPath string) error {
 	var cur *Contract
 	var curLemma *Lemma
 	var curLock *LockInv
+	var curLua *LuaContract
 	for _, ll := range lines {
 		t := ll.text
 		kw := t
@@ -373,6 +375,21 @@ func (cs *ContractSet) ParseFile(path, pkgPath string) error {
 		}
 		errf := func(format string, a ...any) {
 			cs.Errors = append(cs.Errors, fmt.Sprintf("%s:%d: ", path, ll.line)+fmt.Sprintf(format, a...))
+		}
+		if kw == "lua" {
+			cur, curLemma, curLock = nil, nil, nil
+			cs.parseLuaLine(&curLua, kw, rest, path, ll.line)
+			continue
+		}
+		if curLua != nil {
+			if kw == "func" || kw == "extern" || kw == "spec" || kw == "specfn" || kw == "lemma" || kw == "lockinv" || (kw == "ghost" && strings.HasPrefix(rest, "var ")) {
+				curLua = nil
+			} else {
+				if !cs.parseLuaLine(&curLua, kw, rest, path, ll.line) {
+					errf("unknown lua clause %q", kw)
+				}
+				continue
+			}
 		}
 		switch kw {
 		case "package":
